@@ -21,6 +21,7 @@ RULE += (
          'Also: the chosen body re-references the condition from '
          'Python expressions. ')
 RULE += ('Round 8: dtml-unless bodies (both spellings) re-referencing the condition name at several depths. ')
+RULE += ('Round 9: unless is the complement of if for expressions with weakly binding operators. ')
 ASSUMPTIONS = ['reference interpreter vf/model.py is trusted',
                'dtml-call of an undefined name is not generated (the '
                'statement does not say what it does)']
